@@ -32,7 +32,7 @@ COMPONENTS = {
     "stub": ["clock/_run_once", "TCP delivery with bit corruption (SimNet)", "console = byte source + CRC verifier of client frames"],
 }
 ASSUMPTIONS = [
-    "the error patterns enumerated are those CRC-16 detects by construction (1 bit, 2 bits, bursts <= 16 bits) on frames far shorter than 32767 bits",
+    "the error patterns enumerated are those CRC-16 detects by construction (1 bit, 2 bits, bursts <= 16 bits) on frames far shorter than 32767 bits; a burst is contiguous in the CRC's own bit order (least significant bit of each byte first)",
     "the two pad bytes of the undocumented AT5 outer header are not 'covered bytes' and are not corrupted",
     "the exhaustive 1..2-byte comparison of calculate() is a plain function comparison, not simulation; the 3-byte enumeration and the induction on length of the property text are not reproduced",
 ]
@@ -79,6 +79,13 @@ def _scenario(gen: int, kind: str, frame: bytes, bits: list[int], pattern: str, 
         "end": 8.0,
         "info": {"kind": kind, "bits": bits, "pattern": pattern, "a_len": len(a), "frame_len": len(frame), "history": history},
     }
+
+
+def _lsb(p: int) -> int:
+    """Position p in the CRC's own bit order (bytes in sequence, least significant bit of each byte first - CRC-16/MODBUS is a
+    reflected CRC) -> index in the most-significant-bit-first numbering the scenarios use.  A burst is contiguous in the CRC's
+    order; only then is its detection guaranteed."""
+    return (p // 8) * 8 + (7 - p % 8)
 
 
 def _positions(gen: int, n_bytes: int):
@@ -196,7 +203,7 @@ def enumerated(tier: str):
                         end = start + blen - 1
                         if end >= len(fr) * 8:
                             continue
-                        bits = [start, end] + [b for b in range(start + 1, end) if rng.random() < 0.5]
+                        bits = [_lsb(start), _lsb(end)] + [_lsb(b) for b in range(start + 1, end) if rng.random() < 0.5]
                         bits = [b for b in bits if b in set(pos)]
                         if len(bits) >= 1:
                             yield _scenario(gen, kind, fr, sorted(set(bits)), "burst", with_neighbours=False)
@@ -217,7 +224,7 @@ def generate(rng, index: int, tier: str) -> dict:
     else:
         blen = rng.randint(2, 16)
         start = rng.randrange(0, len(fr) * 8 - blen + 1)
-        bits = sorted({start, start + blen - 1} | {b for b in range(start + 1, start + blen - 1) if rng.random() < 0.5})
+        bits = sorted({_lsb(start), _lsb(start + blen - 1)} | {_lsb(b) for b in range(start + 1, start + blen - 1) if rng.random() < 0.5})
         bits = [b for b in bits if b in set(pos)] or [rng.choice(pos)]
     seg = rng.choice([{"mode": "whole"}, {"mode": "random", "seed": rng.getrandbits(16), "max": 5}])
     return _scenario(gen, kind, fr, bits, pattern, with_neighbours=rng.random() < 0.7, seg=seg, history=rng.choice(["none", "none", "same_before", "same_prev_conn"]))
